@@ -315,6 +315,35 @@ def check(repo):
             r2.fail_fn(recv, e.node, "snapshot written from receive loop", "_recv_message writes durable state itself: %s" % e.describe())
     r2.require(r2.obligations >= 1, create, "snapshot instances", "no Service construction found in the connection manager")
 
+    # ---------------------------------------------------------------- R12.6 write-back and unregistration are one atomic step
+    r6 = Rule("R12.6", "the closing connection's snapshot is written before (not after a wait following) its unregistration")
+    rules.append(r6)
+    for fi in coros:
+        c = cfg_of(fi.node)
+        aw = _await_nodes(c)
+        closes = [n for n in c.nodes if n.ast is not None and n.stmt is not None and any(
+            isinstance(cc.func, ast.Attribute) and cc.func.attr == "close_service" for cc in calls_in_order(n.stmt if n.kind != "test" else n.ast))]
+        dels = []
+        for kind, node in _registry_ops(fi):
+            if kind == "delete":
+                dels += _node_of(c, node)
+        for d in dels:
+            for cl in closes:
+                if not c.can_reach(d, cl.id):
+                    r6.ok({"function": fi.qual, "unregister_line": c.nodes[d].line, "write_back_line": cl.line, "order": "write-back first"})
+                    continue
+                w = _await_between(c, d, cl.id, aw)
+                desc = {"function": fi.qual, "unregister_line": c.nodes[d].line, "write_back_line": cl.line,
+                        "await_line": c.nodes[w].line if w is not None else None}
+                if w is None:
+                    r6.ok(desc)
+                else:
+                    r6.fail_fn(fi, cl.stmt, "write-back after unregistration and await",
+                               "the connection is unregistered at line %d, control is given up (line %d) and only then close_service() writes its snapshot "
+                               "(line %d): a successor that registered in between and advanced the state is rolled back" % (c.nodes[d].line, c.nodes[w].line, cl.line), witness=desc)
+    if clean is not None:
+        r6.require(r6.obligations >= 1, clean, "write-back/unregister pair", "the clean-up no longer pairs close_service() with the unregistration")
+
     # ---------------------------------------------------------------- R12.3 identity after await
     for fi in coros:
         c = cfg_of(fi.node)
